@@ -18,11 +18,13 @@
 //   const char8_t* forms must return what the primary form returns for the same needle; a const char*
 //   needle denotes the bytes up to its first NUL (DESIGN.md section 10).
 #define VF_MAIN_TU
+#include "early.h"
 #include "verif.h"
 #include "alloc.h"
 #include "ref_cmpfind.h"
 #include "longpat.h"
 #include "st_string.h"
+#include "early_battery.h"
 
 #include <memory>
 
@@ -567,6 +569,7 @@ static void build(vf::Plan &plan, const vf::Opts &o)
                    },
                    [hp](uint64_t i) { return strf("haystack %s needle nullptr", show((*hp)[i].raw).c_str()); });
     }
+    vf_early::add_stage(plan);
 }
 
 VF_MAIN("C07", build)
